@@ -430,4 +430,4 @@ def _register_shared():
          cases=[dict(auto=a, S=1) for a in (False, True)], trusted=["iter_unordered contract", "iter_patch_id_pairs contract"], kind="bounded")(_C01.u_count_pairs)
 
 
-_register_shared()
+# _register_shared() is called by the driver after this module is fully imported (no import cycles)
